@@ -79,6 +79,9 @@ class _WS:
         self.d = direct
 
     def sendMessage(self, payload, isBinary):
+        if getattr(self.d, "closing", False):
+            from autobahn.exception import Disconnected
+            raise Disconnected("Attempt to send on a closed protocol")
         m = bytes_to_dict(payload)
         self.d.sent.append(m)
         self.d.client.log.append(("tx", m))
@@ -187,6 +190,11 @@ class Direct:
                 c.internal.append((type(e).__name__, " ".join(t), nm))
                 return "internal:" + nm
         k = t[0]
+        if k == "wsclosing":
+            if not self.open:
+                return "skip"
+            self.closing = True
+            return "ok"
         if k == "tcpup":
             if self.open or c.tcp or not c.svc.started:
                 return "skip"
@@ -209,6 +217,7 @@ class Direct:
             if not self.open:
                 return "skip"
             self.open = False
+            self.closing = False
             c.conn = None
             return guard(lambda: rc.ws_close(False, 1006, "dropped"))
         if k == "wsfail":
